@@ -3,7 +3,12 @@ module gosym
 go 1.23
 
 require (
-	golang.org/x/tools v0.29.0
 	github.com/mattn/go-runewidth v0.0.14
 	github.com/rivo/uniseg v0.4.4
+	golang.org/x/tools v0.29.0
+)
+
+require (
+	golang.org/x/mod v0.22.0 // indirect
+	golang.org/x/sync v0.10.0 // indirect
 )
